@@ -400,7 +400,7 @@ pub async fn run(args: &Args, rep: &mut Reporter) {
                                     if blob.is_empty() {
                                         continue;
                                     }
-                                    let positions: Vec<usize> = if dense { (0..blob.len()).step_by((blob.len() / 24).max(1)).collect() } else { vec![0, blob.len() - 1, rng.usize(blob.len())] };
+                                    let positions: Vec<usize> = if dense { (0..blob.len()).step_by((blob.len() / 8).max(1)).collect() } else { vec![0, blob.len() - 1, rng.usize(blob.len())] };
                                     for p in positions {
                                         let mut bad = blob.clone();
                                         let mask = 1u8 << rng.below(8);
